@@ -79,10 +79,12 @@ class AsyncResult(g_AsyncResult):
     total = [len(ars)]
     def complete(_ar):
       total[0] -= 1
-      if total[0] == 0 and _ar.exception:
-        ret.set_exception(_ar.exception)
-      elif not ret.ready() and _ar.successful():
+      if ret.ready():
+        return
+      if _ar.successful():
         ret.set(_ar.value)
+      elif total[0] == 0:
+        ret.set_exception(_ar.exception)
 
     for ar in ars:
       ar.rawlink(complete)
